@@ -284,6 +284,30 @@ def shrink_candidates(line):
                     if limbs[j] != v:
                         emit(limbs[:j] + [v] + limbs[j + 1:])
                 emit(limbs[:j] + limbs[j + 1:])
+    # byte strings, u32 word lists, decimal scalars
+    for ti in range(2, len(toks)):
+        t = toks[ti]
+        def put(nt):
+            if nt != t:
+                cands.append(" ".join(toks[:ti] + [nt] + toks[ti + 1:]))
+        if re.fullmatch(r"x(?:[0-9a-f]{2})+", t):
+            bs = [t[1 + 2 * i: 3 + 2 * i] for i in range((len(t) - 1) // 2)]
+            n = len(bs)
+            put("x" + "".join(bs[: n // 2])); put("x" + "".join(bs[n // 2:])); put("x" + "".join(bs[:-1])); put("x" + "".join(bs[1:]))
+            for j in range(min(n, 8)):
+                put("x" + "".join(bs[:j] + bs[j + 1:]))
+        elif re.fullmatch(r"w[0-9a-f]+(?:,[0-9a-f]+)*", t):
+            ws = t[1:].split(",")
+            n = len(ws)
+            put("w" + ",".join(ws[: n // 2])); put("w" + ",".join(ws[n // 2:])); put("w" + ",".join(ws[:-1])); put("w" + ",".join(ws[1:]))
+        elif re.fullmatch(r"(?:[a-z]+[0-9]*:)?-?[0-9]+", t) and ti >= 2:
+            pre, num = (t.split(":", 1) + [None])[:2] if ":" in t else (None, t)
+            try:
+                v = int(num)
+            except (TypeError, ValueError):
+                continue
+            for nv in (0, 1, v // 2, v - 1 if v > 0 else v + 1):
+                put((pre + ":" if pre else "") + str(nv))
     seen, out = set(), []
     for c in cands:
         if c not in seen:
